@@ -148,7 +148,7 @@ def gen_program(rng: random.Random) -> dict:
             if c < 0.62:
                 d = rng.choice(list(WIDTH))
                 es = []
-                for _ in range(rng.choice([1, 1, 2, 3, 5, 8, 12])):
+                for _ in range(rng.choice([1, 1, 2, 3, 5, 8, 12, 16, 17, 24, 40])):      # (long rows: a dispatch table with null slots, a palette)
                     e, v = value_expr()
                     es.append(e)
                     if v is None:
